@@ -3,6 +3,10 @@ NOTES = ("All checks explore the real implementation (NumPy backend) exhaustivel
          "no TLA+/Promela model is used (see DESIGN.md). VERIF_SEED selects only the integer data alphabet.")
 NOT_APPLICABLE = {}
 CHECKS = {
+ 'C01': dict(category='exploration', design_ref='DESIGN.md §2 C01',
+   technique='exhaustive product enumeration of operand structures (symmetry, signature, sector sets, charge, absent blocks, lazy/materialised permutation) x operation x arguments, compared bitwise with NumPy on ground-truth dense arrays',
+   text='Every public algebra operation (unary catalogue, tensordot/@, vdot, add/sub/add(), broadcast, apply_mask, diagonal operands, trace, diag, add/remove_leg, ncon/einsum over a complete catalogue of small networks and all contraction orders) is executed on every operand combination of a bounded structural alphabet in all 7 symmetries and 2 dtypes; the result is read back through block access and through to_numpy and compared bitwise with the same NumPy operation on dense ground truth (integer data). Exhaustive inside the alphabet; it is a coverage statement, not a proof.',
+   note='Trusted: NumPy; the generator builds tensors with set_block and keeps the dense truth itself. Sector dimensions <= 3, ranks <= 3 (4 for trace/structural ops; 4 throughout in thorough). Fused operands are covered by C03, policies by C14.'),
  'C19': dict(category='exploration', design_ref='DESIGN.md §2 C19',
    technique='exhaustive product enumeration of charge tuples/signatures/groupings and of Leg constructor arguments against a tuple-arithmetic group model',
    text='Complete enumeration of all charge m-tuples (m<=3 quick, 4 thorough) in a bounded box incl. non-canonical representatives, all signature vectors and groupings, for every symmetry class found in yastn.sym; complete enumeration of Leg constructor arguments in and just outside the valid domain. Exhaustive within the box, which is the right level for a finite algebraic law.',
